@@ -190,6 +190,8 @@ func c18Run(r *core.Run) {
 		{"untrusted-root", func(x *world.Quote) {}, false, O0},
 		{"revocation-without-collateral", func(x *world.Quote) {}, true, O3},
 		{"report-data-changed-not-resigned", func(x *world.Quote) { x.ReportData[63] ^= 0x80 }, true, O0},
+		{"binding-padding-not-zero", func(x *world.Quote) { x.QE.ReportData[32+t.Draw(32)] = byte(1 + t.Draw(255)); x.SignQE(w.P.PCKKey) }, true, O0},
+		{"binding-digest-then-second-digest", func(x *world.Quote) { copy(x.QE.ReportData[32:], x.QE.ReportData[:32]); x.SignQE(w.P.PCKKey) }, true, O0},
 	}
 	for _, vf := range vfaults {
 		if !r.Item("verify-gate:" + vf.name) {
@@ -228,6 +230,28 @@ func c18Run(r *core.Run) {
 			i := t.Draw(16)
 			if o.TdQuoteBodyOptions.MinimumTeeTcbSvn[i] < 255 {
 				o.TdQuoteBodyOptions.MinimumTeeTcbSvn[i]++
+			} else {
+				o.TdQuoteBodyOptions.MrSeam[0] ^= 1
+			}
+		}},
+		{"minimum_tee_tcb_svn-mixed-vector", func(o *validate.Options) {
+			// an earlier component BELOW the quote's, a later component above it: component-wise the
+			// quote misses the minimum, lexicographically it does not
+			m := o.TdQuoteBodyOptions.MinimumTeeTcbSvn
+			lo, hi := -1, -1
+			for i := 0; i < 16 && lo < 0; i++ {
+				if m[i] > 0 {
+					lo = i
+				}
+			}
+			for i := 15; i > lo && hi < 0; i-- {
+				if m[i] < 255 {
+					hi = i
+				}
+			}
+			if lo >= 0 && hi > lo {
+				m[lo]--
+				m[hi]++
 			} else {
 				o.TdQuoteBodyOptions.MrSeam[0] ^= 1
 			}
